@@ -63,6 +63,9 @@ type popFunc struct {
 
 // popFuncs returns every function of the binary, sorted by entry.
 func popFuncs() ([]popFunc, error) {
+	if len(popKeep) == 0 {
+		return nil, os.ErrInvalid
+	}
 	exe, err := os.Executable()
 	if err != nil {
 		return nil, err
